@@ -63,7 +63,7 @@ func c04Generate(c *mon.Ctx) {
 
 	// points whose affine y (resp. x, y^2, x^3) has a structured STORED value, and their negations: what the decoder's square
 	// root, negation and curve-equation check work on when the encoding comes back in
-	strideS := c.N(3, 1)
+	strideS := c.N(1, 1)
 
 	for ti, t := range gen.DecodeTargets() {
 		if ti%strideS != int(c.Seed%uint64(strideS)) {
